@@ -61,7 +61,12 @@ impl TryFrom<&str> for TopicName {
         }
 
         #[cfg(not(feature = "__notopiccheck"))]
-        if value[1..].starts_with(RESERVED_NAMESPACE) {
+        // `get` rather than indexing: byte 1 is not a character boundary if the string
+        // starts with a multi-byte character
+        if value
+            .get(1..)
+            .map_or(false, |rest| rest.starts_with(RESERVED_NAMESPACE))
+        {
             return Err(SeliumError::ReservedNamespaceError);
         }
 
